@@ -176,6 +176,12 @@ func (e *Exec) assume(term string) {
 	if e.discovery || term == "true" {
 		return
 	}
+	if cs := splitAnd(term); len(cs) > 1 {
+		for _, c := range cs {
+			e.assume(c)
+		}
+		return
+	}
 	if e.reach == "true" || e.reach == "" {
 		e.vc.add("(assert " + term + ")")
 	} else {
@@ -251,8 +257,16 @@ func (e *Exec) oblige(class, label, clauseText string, props []string, guard, go
 	if e.discovery {
 		return
 	}
-	if goal == "true" {
-		// trivially valid: still counted, discharged syntactically? keep it a real query for uniformity
+	if (strings.HasPrefix(class, "safe.") || class == "nofatal" || class == "nopanic") && e.Con != nil && len(e.Con.Safety) > 0 && e.Prop != "" {
+		on := false
+		for _, p := range e.Con.Safety {
+			if p == e.Prop {
+				on = true
+			}
+		}
+		if !on {
+			return
+		}
 	}
 	pos := e.curPos()
 	anchor := e.anchorFor(pos)
@@ -680,7 +694,6 @@ func preamble() []string {
 		"(assert (= (strid str!empty) 0))",
 		"(assert (forall ((s Str)) (! (>= (strlen s) 0) :pattern ((strlen s)))))",
 		"(assert (forall ((s Str)) (! (=> (= (strlen s) 0) (= s str!empty)) :pattern ((strlen s)))))",
-		"(assert (forall ((a Str) (b Str)) (! (= (strlen (strcat a b)) (+ (strlen a) (strlen b))) :pattern ((strcat a b)))))",
 		"(declare-fun rnd64 (Real) Real)",
 		"(declare-fun rnd32 (Real) Real)",
 		"(define-fun MAXF () Real 179769313486231570814527423731704356798070567525844996598917476803157260780028538760589558632766878171540458953514382464234321326889464182768467546703537516986049910576551282076245490090389328944075868508455133942304583236903222948165808559332123348274797826204144723168738177180919299881250404026184124858368.0)",
@@ -726,4 +739,43 @@ func (b *bigInt) String() string {
 		sb.WriteByte(byte('0' + b.digits[i]))
 	}
 	return sb.String()
+}
+
+// splitAnd returns the top-level conjuncts of "(and a b ...)" (recursively flattened).
+func splitAnd(t string) []string {
+	if !strings.HasPrefix(t, "(and ") || !strings.HasSuffix(t, ")") {
+		return []string{t}
+	}
+	inner := t[5 : len(t)-1]
+	var parts []string
+	depth, start := 0, 0
+	for i := 0; i < len(inner); i++ {
+		switch inner[i] {
+		case '(':
+			depth++
+		case ')':
+			depth--
+			if depth < 0 {
+				return []string{t}
+			}
+		case ' ':
+			if depth == 0 {
+				if i > start {
+					parts = append(parts, inner[start:i])
+				}
+				start = i + 1
+			}
+		}
+	}
+	if start < len(inner) {
+		parts = append(parts, inner[start:])
+	}
+	if depth != 0 {
+		return []string{t}
+	}
+	var out []string
+	for _, p := range parts {
+		out = append(out, splitAnd(p)...)
+	}
+	return out
 }
